@@ -57,6 +57,16 @@ type c19Msg struct {
 	Words  []string `json:"words"`
 	Rep    int      `json:"rep,omitempty"` // the words are repeated Rep times (long messages); 0 = once
 	Images int      `json:"images,omitempty"`
+	// ImgKey, if > 0, names the message's images (c19Image(ImgKey-1, j)) instead of its index in the
+	// conversation; only TestC19Routes sets it (the same request judged against two message lists)
+	ImgKey int `json:"img_key,omitempty"`
+}
+
+func c19ImgKey(m c19Msg, k int) int {
+	if m.ImgKey > 0 {
+		return m.ImgKey - 1
+	}
+	return k
 }
 
 type c19Case struct {
@@ -102,6 +112,9 @@ var c19Tmpls = map[string]c19Tmpl{
 		file: "chatml.gotmpl",
 		kind: "generic", open: "<|im_start|>", mid: "\n", close: "<|im_end|>\n", trailer: "<|im_start|>assistant\n",
 	},
+	// the repository's command-r template prints {{ .System }} once and skips the system role inside
+	// `range .Messages`; it has its own grammar (c19ParseCommandR). Drawn by TestC19Routes only.
+	"commandr": {file: "command-r.gotmpl", kind: "commandr"},
 	"llama3": {
 		file: "llama3-instruct.gotmpl",
 		kind: "generic", open: "<|start_header_id|>", mid: "<|end_header_id|>\n\n", close: "<|eot_id|>",
@@ -234,34 +247,43 @@ func c19Gen(t *rapid.T) c19Case {
 	if c.Tmpl == "legacy" {
 		roles = roles[:9] // legacy templates have no notion of a tool message
 	}
-	c.Msgs = rapid.SliceOfN(rapid.Custom(func(t *rapid.T) c19Msg {
-		var m c19Msg
-		m.Role = rapid.SampledFrom(roles).Draw(t, "role")
-		switch m.Role {
-		case "user":
-			m.Images = rapid.SampledFrom([]int{0, 0, 0, 0, 1, 1, 2}).Draw(t, "images")
-		case "assistant", "tool": // the API accepts images on any message; rare in practice
-			m.Images = rapid.SampledFrom([]int{0, 0, 0, 0, 0, 0, 0, 0, 0, 1, 2}).Draw(t, "images")
-		}
-		minw := 1
-		if m.Images > 0 {
-			minw = 0
-		}
-		m.Words = rapid.SliceOfN(rapid.SampledFrom(c19Words), minw, 6).Draw(t, "words")
-		m.Rep = rapid.SampledFrom([]int{0, 0, 0, 0, 0, 0, 0, 0, 2, 3, 25}).Draw(t, "rep")
-		return m
-	}), 1, 12).Draw(t, "msgs")
-	n := len(c.Msgs)
+	c.Msgs = rapid.SliceOfN(rapid.Custom(func(t *rapid.T) c19Msg { return c19GenMsg(t, roles) }), 1, 12).Draw(t, "msgs")
+	c.CtxAbs, c.CtxIdx, c.CtxDelta = c19GenCtx(t, len(c.Msgs))
+	return c
+}
+
+// c19GenMsg draws one message with a role from roles (shared with TestC19Routes).
+func c19GenMsg(t *rapid.T, roles []string) c19Msg {
+	var m c19Msg
+	m.Role = rapid.SampledFrom(roles).Draw(t, "role")
+	switch m.Role {
+	case "user":
+		m.Images = rapid.SampledFrom([]int{0, 0, 0, 0, 1, 1, 2}).Draw(t, "images")
+	case "assistant", "tool": // the API accepts images on any message; rare in practice
+		m.Images = rapid.SampledFrom([]int{0, 0, 0, 0, 0, 0, 0, 0, 0, 1, 2}).Draw(t, "images")
+	}
+	minw := 1
+	if m.Images > 0 {
+		minw = 0
+	}
+	m.Words = rapid.SliceOfN(rapid.SampledFrom(c19Words), minw, 6).Draw(t, "words")
+	m.Rep = rapid.SampledFrom([]int{0, 0, 0, 0, 0, 0, 0, 0, 2, 3, 25}).Draw(t, "rep")
+	return m
+}
+
+// c19GenCtx draws the context length of a conversation of n messages: absolute, or (mostly) relative
+// to the token count of a drawn suffix so that both sides of every cut are hit (shared with TestC19Routes).
+func c19GenCtx(t *rapid.T, n int) (abs, idx, delta int) {
 	switch rapid.IntRange(0, 9).Draw(t, "ctxmode") {
 	case 0:
-		c.CtxAbs = rapid.IntRange(1, 60).Draw(t, "ctxsmall")
+		abs = rapid.IntRange(1, 60).Draw(t, "ctxsmall")
 	case 1:
-		c.CtxAbs = rapid.SampledFrom([]int{1, 2, 767, 768, 769, 800, 1536, 1560, 2304, 2400, 4096, 100000}).Draw(t, "ctxabs")
+		abs = rapid.SampledFrom([]int{1, 2, 767, 768, 769, 800, 1536, 1560, 2304, 2400, 4096, 100000}).Draw(t, "ctxabs")
 	default:
-		c.CtxIdx = rapid.IntRange(0, n-1).Draw(t, "ctxidx")
-		c.CtxDelta = rapid.SampledFrom([]int{-3, -1, -1, 0, 0, 0, 1, 2, 5}).Draw(t, "ctxdelta")
+		idx = rapid.IntRange(0, n-1).Draw(t, "ctxidx")
+		delta = rapid.SampledFrom([]int{-3, -1, -1, 0, 0, 0, 1, 2, 5}).Draw(t, "ctxdelta")
 	}
-	return c
+	return abs, idx, delta
 }
 
 // ----------------------------------------------------------------------------------- the oracle
@@ -338,7 +360,7 @@ func c19Expect(c c19Case, kind string, list []int) []c19Field {
 	switch kind {
 	case "generic":
 		return col
-	case "syshdr":
+	case "syshdr", "commandr":
 		var out []c19Field
 		var sys []int
 		for _, k := range list {
@@ -433,6 +455,51 @@ func c19ParseLegacy(p string) ([]c19Field, error) {
 		}
 		rest = rest[i+len(end):]
 		out = append(out, c19Field{label: "|"})
+	}
+}
+
+// c19ParseCommandR parses a prompt of the repository's command-r template (without tools): an optional
+// system turn holding .System, one turn per non-system message, the generation trailer.
+func c19ParseCommandR(p string) ([]c19Field, error) {
+	const (
+		start   = "<|START_OF_TURN_TOKEN|>"
+		end     = "<|END_OF_TURN_TOKEN|>"
+		sysTok  = "<|SYSTEM_TOKEN|>"
+		toolPre = "<|SYSTEM_TOKEN|><results>\nconsole_output: "
+		toolSuf = "\n</results>"
+		trailer = end + start + "<|CHATBOT_TOKEN|>"
+	)
+	var out []c19Field
+	rest := p
+	for {
+		if rest == trailer || rest == trailer+"\n" { // the template file ends with a newline
+			return out, nil
+		}
+		if !strings.HasPrefix(rest, start) {
+			return nil, fmt.Errorf("expected %q at offset %d", start, len(p)-len(rest))
+		}
+		rest = rest[len(start):]
+		i := strings.Index(rest, end)
+		if i < 0 {
+			return nil, fmt.Errorf("unterminated turn at offset %d", len(p)-len(rest))
+		}
+		turn := rest[:i]
+		rest = rest[i+len(end):]
+		switch {
+		case strings.HasPrefix(turn, toolPre) && strings.HasSuffix(turn, toolSuf) && len(turn) >= len(toolPre)+len(toolSuf):
+			out = append(out, c19Field{label: "tool", content: turn[len(toolPre) : len(turn)-len(toolSuf)]})
+		case strings.HasPrefix(turn, sysTok):
+			if len(out) > 0 {
+				return nil, fmt.Errorf("system turn after %d other turns", len(out))
+			}
+			out = append(out, c19Field{label: "SYS", content: turn[len(sysTok):]})
+		case strings.HasPrefix(turn, "<|USER_TOKEN|>"):
+			out = append(out, c19Field{label: "user", content: turn[len("<|USER_TOKEN|>"):]})
+		case strings.HasPrefix(turn, "<|CHATBOT_TOKEN|>"):
+			out = append(out, c19Field{label: "assistant", content: turn[len("<|CHATBOT_TOKEN|>"):]})
+		default:
+			return nil, fmt.Errorf("turn %q has no role token", turn)
+		}
 	}
 }
 
@@ -534,9 +601,10 @@ func c19Compare(c c19Case, kind string, isMllama, preprocess bool, res c19Result
 		if res.images[i].ID != i {
 			return fmt.Errorf("returned image %d has ID %d", i, res.images[i].ID)
 		}
-		want := c19Image(r.k, r.j, preprocess)
+		key := c19ImgKey(c.Msgs[r.k], r.k)
+		want := c19Image(key, r.j, preprocess)
 		if preprocess {
-			b, ar, err := c19Preprocessed(r.k, r.j)
+			b, ar, err := c19Preprocessed(key, r.j)
 			if err != nil {
 				return nil // environment: harness image not decodable (cannot happen); no verdict
 			}
@@ -556,14 +624,51 @@ func c19Tokenize(_ context.Context, s string) ([]int, error) {
 	return make([]int, len(strings.Fields(s))), nil
 }
 
-func c19Run(c c19Case, o c19Opts) (info c19Info, err error) {
-	invalid := func(why string) (c19Info, error) {
+// c19Ref is the reference computation for one conversation: what the statement says about it before
+// any code under test has run (template, model kind, the messages as the client holds them, the
+// token count of every candidate window, the context length, the retained start n). It is shared by
+// TestC19ChatPrompt (which calls chatPrompt itself) and TestC19Routes (which sends the conversation
+// through the router and judges what reached the runner).
+type c19Ref struct {
+	c          c19Case
+	tk         c19Tmpl
+	tm         *template.Template
+	m          *Model
+	imgCost    int
+	isMllama   bool
+	preprocess bool
+	count      []int
+	ctx        int
+	n          int
+	last       int
+	mono       bool
+	knownClass bool
+}
+
+func (r *c19Ref) fit(i int) bool { return r.count[i] <= r.ctx }
+
+// build returns the conversation as API messages (a fresh copy: chatPrompt edits its argument).
+func (r *c19Ref) build() []api.Message {
+	msgs := make([]api.Message, len(r.c.Msgs))
+	for k, mm := range r.c.Msgs {
+		msgs[k] = api.Message{Role: mm.Role, Content: c19Content(mm)}
+		for j := 0; j < c19NumImages(mm, r.isMllama); j++ {
+			msgs[k].Images = append(msgs[k].Images, api.ImageData(c19Image(c19ImgKey(mm, k), j, r.preprocess)))
+		}
+	}
+	return msgs
+}
+
+// c19Prepare validates the case and computes the reference. ref == nil with a nil error means the
+// case is outside the input domain (counted as invalid_case_*; only hand-written replays get there).
+func c19Prepare(c c19Case) (ref *c19Ref, info c19Info, err error) {
+	invalid := func(why string) (*c19Ref, c19Info, error) {
 		info.classes = append(info.classes, "invalid_case_"+why)
-		return info, nil
+		return nil, info, nil
 	}
 	tk, tm, ok, terr := c19Template(c.Tmpl)
 	if terr != nil {
-		return info, terr
+		return nil, info, terr
 	}
 	if !ok {
 		return invalid("template")
@@ -594,21 +699,12 @@ func c19Run(c c19Case, o c19Opts) (info c19Info, err error) {
 			}
 		}
 	}
-
-	build := func() []api.Message {
-		msgs := make([]api.Message, len(c.Msgs))
-		for k, mm := range c.Msgs {
-			msgs[k] = api.Message{Role: mm.Role, Content: c19Content(mm)}
-			for j := 0; j < c19NumImages(mm, isMllama); j++ {
-				msgs[k].Images = append(msgs[k].Images, api.ImageData(c19Image(k, j, preprocess)))
-			}
-		}
-		return msgs
-	}
+	ref = &c19Ref{c: c, tk: tk, tm: tm, m: m, imgCost: imgCost, isMllama: isMllama, preprocess: preprocess}
 	last := len(c.Msgs) - 1
+	ref.last = last
 
 	// independent fit computation
-	orig := build()
+	orig := ref.build()
 	count := make([]int, len(orig))
 	for i := range orig {
 		var list []api.Message
@@ -620,18 +716,20 @@ func c19Run(c c19Case, o c19Opts) (info c19Info, err error) {
 		list = append(list, orig[i:]...)
 		var b bytes.Buffer
 		if err := tm.Execute(&b, template.Values{Messages: list}); err != nil {
-			return info, fmt.Errorf("template %s failed on messages %d..: %v", c.Tmpl, i, err)
+			return nil, info, fmt.Errorf("template %s failed on messages %d..: %v", c.Tmpl, i, err)
 		}
 		count[i] = len(strings.Fields(b.String()))
 		for _, mm := range orig[i:] {
 			count[i] += imgCost * len(mm.Images)
 		}
 	}
+	ref.count = count
 	ctx := c.CtxAbs
 	if ctx <= 0 {
 		ctx = max(1, count[((c.CtxIdx%len(count))+len(count))%len(count)]+c.CtxDelta)
 	}
-	fit := func(i int) bool { return count[i] <= ctx }
+	ref.ctx = ctx
+	fit := ref.fit
 	n := last
 	for i := last - 1; i >= 0; i-- {
 		if !fit(i) {
@@ -639,13 +737,16 @@ func c19Run(c c19Case, o c19Opts) (info c19Info, err error) {
 		}
 		n = i
 	}
+	ref.n = n
 	mono := true
 	for i := 0; i+1 < last; i++ {
 		if count[i] < count[i+1] {
 			mono = false
 		}
 	}
+	ref.mono = mono
 	knownClass := last >= 1 && c.Msgs[last-1].Role == "system" && !fit(last-1)
+	ref.knownClass = knownClass
 
 	// classes
 	cl := func(s string) {
@@ -743,23 +844,31 @@ func c19Run(c c19Case, o c19Opts) (info c19Info, err error) {
 		cl("class_" + c19KnownSysBeforeLast)
 	}
 	info.nontrivial = mono && dropped > 0 && (totalSys > 0 || totalImages > 0)
+	return ref, info, nil
+}
 
-	// the code under test
-	in := build()
-	prompt, images, cerr := chatPrompt(context.Background(), m, c19Tokenize, &api.Options{Runner: api.Runner{NumCtx: ctx}}, in, nil)
-	head := fmt.Sprintf("ctx=%d counts=%v retained start n=%d prompt=%q", ctx, count, n, prompt)
+// c19Judge compares what the code under test produced for the conversation of ref (the prompt and the
+// image list, or the error cerr; producer names who produced them, for messages only) with the
+// statement. info is the one c19Prepare returned; summary and exclusions are added to it.
+func c19Judge(ref *c19Ref, o c19Opts, info c19Info, producer, prompt string, images []llm.ImageData, cerr error) (c19Info, error) {
+	c, tk, n, last := ref.c, ref.tk, ref.n, ref.last
+	isMllama, preprocess, mono, knownClass, fit := ref.isMllama, ref.preprocess, ref.mono, ref.knownClass, ref.fit
+	head := fmt.Sprintf("ctx=%d counts=%v retained start n=%d prompt=%q", ref.ctx, ref.count, n, prompt)
 	info.summary = fmt.Sprintf("%s images=%d classes=%v", head, len(images), info.classes)
 	if cerr != nil {
 		if errors.Is(cerr, errTooManyImages) {
-			return info, fmt.Errorf("chatPrompt rejected a conversation with at most one image per message: %v; %s", cerr, head)
+			return info, fmt.Errorf("%s rejected a conversation with at most one image per message: %v; %s", producer, cerr, head)
 		}
-		return info, fmt.Errorf("chatPrompt failed: %v; %s", cerr, head)
+		return info, fmt.Errorf("%s failed: %v; %s", producer, cerr, head)
 	}
 	res := c19Result{prompt: prompt, images: images}
 	var perr error
-	if tk.kind == "legacy" {
+	switch tk.kind {
+	case "legacy":
 		res.fields, perr = c19ParseLegacy(prompt)
-	} else {
+	case "commandr":
+		res.fields, perr = c19ParseCommandR(prompt)
+	default:
 		res.fields, perr = c19ParseGeneric(tk, prompt)
 	}
 	if perr != nil {
@@ -799,6 +908,17 @@ func c19Run(c c19Case, o c19Opts) (info c19Info, err error) {
 		}
 	}
 	return info, fmt.Errorf("%v; %s", first, head)
+}
+
+func c19Run(c c19Case, o c19Opts) (info c19Info, err error) {
+	ref, info, err := c19Prepare(c)
+	if err != nil || ref == nil {
+		return info, err
+	}
+	// the code under test
+	in := ref.build()
+	prompt, images, cerr := chatPrompt(context.Background(), ref.m, c19Tokenize, &api.Options{Runner: api.Runner{NumCtx: ref.ctx}}, in, nil)
+	return c19Judge(ref, o, info, "chatPrompt", prompt, images, cerr)
 }
 
 // ------------------------------------------------------------------------------------------ test
